@@ -71,7 +71,10 @@ TIME_BUFFER = {"buffered": 1}
 DATASETS["large"] = [("alpha" if k % 3 else "beta",
                       [("r", None), ("a", 0), ("b", 1), ("c", 0)])
                      for k in range(262)]
-BATCH_SIZE = {"large": 1000}
+# a single default-size batch of 700 ids: neither below nor a multiple of the
+# sizes (500, 900, 999) at which id look-ups are commonly chunked
+DATASETS["medium"] = DATASETS["large"][:175]
+BATCH_SIZE = {"large": 1000, "medium": 1000}
 ACTIONS_PV = [(ni, ug, se) for ni in (False, True) for ug in (False, True)
               for se in (False, True)]
 
@@ -303,9 +306,9 @@ def judge(ds, obs, ref_full, ref_obs, command, ni, ug, se, from_empty):
 def explore(tier, ctx, progress):
     pool.worker_setup()
     depth = 3 if tier == "quick" else 4
-    datasets = ["repeated", "dirty", "buffered", "large"] \
+    datasets = ["repeated", "dirty", "buffered", "large", "medium"] \
         if tier == "quick" else \
-        ["repeated", "dirty", "buffered", "large", "distinct"]
+        ["repeated", "dirty", "buffered", "large", "medium", "distinct"]
     commands = ["otel2pv"] if tier == "quick" else ["otel2pv", "otel2puml"]
     keep = impl_otel.scratch_dir()
     viol = []
